@@ -114,7 +114,7 @@ func runC15(res *Result, rng *RNG, tier string, outDir string) {
 	res.Rule = "blocks written in the documented grammar over the printable domain (strings without quote/backslash/newline, non-negative integers, dates 1970..9999, sets of non-string elements, identifier-shaped names; every operator and method, nested parentheses), parsed with the parser and placed at every position (authority, 1st..3rd block) of tokens whose other blocks come from the same generator (shared and fresh symbols): the text the library prints for that block (Block.Code through the token's cumulative table) is re-parsed and must give the same facts, rules and checks; Code()/String() must be identical before and after Serialize/Unmarshal; printing must not panic. The Coq printer must produce the same text byte for byte and the Coq parser must map it back to the block. Non-trivial = a block with an expression or at least 3 elements; distinct by block text."
 	n := 150
 	if tier == "thorough" {
-		n = 2500
+		n = 6000
 	}
 	_, priv := rootKeys()
 	var lines, descs []string
